@@ -74,13 +74,16 @@ func TestVerifC19WatchLoop(t *testing.T) {
 			}
 
 			for e := 0; e < st.FeedErr; e++ {
-				w.w.Errors <- errors.New("c19: injected watcher error")
+				select {
+				case w.w.Errors <- errors.New("c19: injected watcher error"):
+				case <-time.After(2 * time.Second): // nobody reads: the loop is gone, the rewrite below will not be delivered
+				}
 			}
 
 			before1, before2 := l1.n.Load(), l2.n.Load()
 			os.WriteFile(path, []byte(fmt.Sprint("content ", k)), 0o600)
 
-			for deadline := time.Now().Add(30 * time.Second); time.Now().Before(deadline); time.Sleep(2 * time.Millisecond) {
+			for deadline := time.Now().Add(20 * time.Second); time.Now().Before(deadline); time.Sleep(2 * time.Millisecond) {
 				if l1.n.Load() > before1 && l2.n.Load() > before2 {
 					st.Delivered = true
 
@@ -90,6 +93,10 @@ func TestVerifC19WatchLoop(t *testing.T) {
 
 			steps = append(steps, st)
 			coq = append(coq, vf.CoqBool(st.Delivered))
+
+			if !st.Delivered {
+				break
+			}
 		}
 
 		w.stop(context.Background()) //nolint:errcheck
